@@ -296,6 +296,41 @@ def _normalise_comparisons(body):
             n["x"], n["y"], n["op"] = y, x, _FLIP[n["op"]]
 
 
+def _const_arm(e):
+    while isinstance(e, dict) and e.get("k") in ("Cast", "Paren"):
+        e = e["e"]
+    return isinstance(e, dict) and e.get("k") == "Int"
+
+
+def _lower_flag_from_condition(s):
+    """`code = c ? K1 : K2;` with constant arms (the `code = ok ? ERR_OK : E; ERR_CALL_HANDLE(code, ..)` spelling of
+    `if (!ok) { ..; return E; }`) becomes `if (c) code = K1; else code = K2;`, so that the path engine branches on c
+    and the later test of the flag is decided by its constant."""
+    if isinstance(s, list):
+        return [_lower_flag_from_condition(x) for x in s]
+    if not isinstance(s, dict):
+        return s
+    k = s.get("k")
+    if k == "Block":
+        s["b"] = [_lower_flag_from_condition(x) for x in s.get("b", [])]
+        return s
+    if k in ("If", "For", "While", "Do", "Switch", "Label", "Case", "Default"):
+        for f_ in ("then", "else", "body", "sub"):
+            if isinstance(s.get(f_), dict):
+                s[f_] = _lower_flag_from_condition(s[f_])
+        return s
+    if k == "Bin" and s.get("op") == "=":
+        l, r = s.get("x"), s.get("y")
+        while isinstance(r, dict) and r.get("k") in ("Cast", "Paren"):
+            r = r["e"]
+        if isinstance(l, dict) and l.get("k") == "Ref" and l.get("rk") in ("local", "param") and not l.get("p") and \
+                isinstance(r, dict) and r.get("k") == "Cond" and _const_arm(r.get("x")) and _const_arm(r.get("y")):
+            def asg(v):
+                return {"k": "Bin", "op": "=", "l": s.get("l"), "t": s.get("t"), "x": dict(l), "y": v}
+            return {"k": "If", "l": s.get("l"), "c": r["c"], "then": asg(r["x"]), "else": asg(r["y"])}
+    return s
+
+
 SIGNATURES = None       # name (or "file:name" for statics) -> reference parameter names; loaded on first use
 
 
@@ -347,6 +382,8 @@ class Program:
                 _name_indirect_calls(fd.get("body"))
                 _normalise_params(fd, relpath(fd.get("file") or u))
                 _normalise_comparisons(fd.get("body"))
+                if fd.get("body") is not None:
+                    fd["body"] = _lower_flag_from_condition(fd["body"])
                 f = Func(fd, u)
                 self.by_unit[u].append(f)
                 if f.static or fd.get("inline"):
